@@ -98,6 +98,7 @@ ProtoAlias(n) == CASE n = 84  -> {"ttp", "iptm"}
                    [] n = 34  -> {"3pc", "threepc"}
                    [] n = 39  -> {"tp", "tppp", "tpplusplus"}
                    [] n = 22  -> {"xnsidp", "xnxidp"}
+                   [] n = 10  -> {"bbnrccmon", "bbcrccmon"}
                    [] OTHER   -> {}
 
 IanaName(n) == IF n = 0 THEN "hopopt" ELSE IF n <= 145 THEN IanaProto[n] ELSE ""
